@@ -12,6 +12,16 @@ Ops
                           `ok[…]` / `err[…]` with the consult log `len:fnv(data):siglen:fnv(sig):acc;…`, or `parse-err`.
                           B64TABLE = `text=decoded|!` pairs (hex, `.` = empty, `-` = no pairs): what pgp's base64 decoder made of
                           each OPENPGP entry text — the model's abstract `b64` parameter, supplied by the harness.
+                          Since AUDIT2 (a8, a10) the observation continues ` keyids=<id+id|none|err:CLASS> echo=<h|c><len>:<bytes>;…|-`:
+                          `signature_key_ids()` on the same package — predicted by `Sign.keyIds` with the SAME table as base64 decoder
+                          (the code has a second, inline decoder there) and the optional 4th argument PKTTABLE as packet parser —
+                          and what `echo_signature` handed to a Debug logger, predicted by `verifySignatureSE`.
+* `forge02 KEY OFF DEL INS B64TABLE BYTES` — right key, different data (AUDIT2 b21): BYTES (library-signed) edited, then every recorded
+                          digest recomputed (`forge`: the driver's own forger, compared with the harness's through `forged=<fnv>`),
+                          signatures kept. Model: `verifySignatureS` on the forged package with the verifier the SigScheme hypotheses
+                          describe for the signer's own key (accepts exactly the original's signatures, each for exactly the data it was
+                          made for: `Correct` + `Binds`). Spec: parsed (header bytes, content) differ from the original's ⇒ not `verify=ok`
+                          (`fails:tamper-accepted`), as proved in `Props/C02Bytes.lean: tamper_rejected_build_sign`.
 * `vorig KEY BYTES`, `vflip KEY BIT BYTES`, `vedit KEY OFF DEL INS BYTES` — the real `pgp::Verifier` on a package built and signed
                           by the library, unmodified / one bit flipped / DEL bytes at OFF replaced by INS:
                           `verify=ok | verify=err | verify=parse-err`.
@@ -45,7 +55,7 @@ Spec verdict (on the IMPLEMENTATION's observation):
 namespace RpmVerif.Driver.C02
 open RpmVerif.Hdr RpmVerif.Driver RpmVerif.Verify RpmVerif.Gen
 
-def ops : List String := ["vsig", "vorig", "vflip", "vedit", "vobs", "sigpkts"]
+def ops : List String := ["vsig", "vorig", "vflip", "vedit", "vobs", "sigpkts", "forge02"]
 
 def realH : DigestSpec.Hashes := ⟨Hash.md5L, Hash.sha1L, Hash.sha256L⟩
 
@@ -80,7 +90,8 @@ def hexU64 (s : String) : Option UInt64 :=
   s.toList.foldlM (fun acc c => (hexVal c).map fun d => acc * 16 + d.toUInt64) (0 : UInt64)
 
 /-- `ok[…]` / `err[…]` → (is ok, observed consults) -/
-def parseImpl (s : String) : Option (Bool × List (VerifySpec.Seen Id2)) :=
+def parseImpl (s0 : String) : Option (Bool × List (VerifySpec.Seen Id2)) :=
+  let s := (s0.splitOn " ").headD ""
   let (isOk, rest) := if s.startsWith "ok[" then (true, (s.drop 3).toString) else (false, (s.drop 4).toString)
   if !(s.startsWith "ok[" || s.startsWith "err[") || !rest.endsWith "]" then none else
   let body := (rest.dropEnd 1).toString
@@ -110,39 +121,6 @@ def shapeLabel (p : Package) : String :=
   let isBin : IndexData → Bool := fun d => match d with | .bin _ => true | _ => false
   let st := [SigTag.RPMSIGTAG_RSA, SigTag.RPMSIGTAG_DSA, SigTag.RPMSIGTAG_PGP].map (tagState sig · isBin)
   s!"openpgp-{o},legacy-{st.count "+"}bin-{st.count "x"}wrong"
-
-def handleVsig (pat table hb impl : String) : String :=
-  match parseTable table, bytesOfHex hb with
-  | some tbl, some bs =>
-    match parsePackage bs with
-    | .err c => answer "parse-err" "dontcare" ("parse-err-" ++ c)
-    | .panic s => answer "panic" "dontcare" ("parse-panic-" ++ s)
-    | .ok p =>
-      -- every OPENPGP text the model will decode must be in the table
-      let texts := match getStringArray p.md.signature SigTag.RPMSIGTAG_OPENPGP with | .ok l => l | _ => []
-      if texts.any (fun t => (tbl.lookup t).isNone) then badReq "b64-table" else
-      let b64 : Bytes → Option Bytes := fun t => (tbl.lookup t).getD none
-      let r := verifySignatureS realH.md5 realH.sha1 realH.sha256 b64 (scripted (patternOf pat)) p
-      let m := obsStr r
-      let cls := match r.1 with | .ok _ => "ok" | .err c => c | .panic _ => "panic"
-      let branch := s!"vsig[{shapeLabel p}]{cls}/{r.2.length}"
-      match parseImpl impl with
-      | none => answer m "dontcare" branch           -- parse-err / panic on the implementation's side: a broken tie, no verdict
-      | some (false, _) => answer m "holds" branch   -- the text restricts success only
-      | some (true, log) =>
-        let hdr := DigestSpec.rawHeader bs
-        let content := DigestSpec.rawContent bs
-        let pgpSig := match DigestSpec.firstData p.md.signature.entries SigTag.RPMSIGTAG_PGP with
-          | some (.bin s) => some s | _ => none
-        let binOf : Nat → Option Bytes := fun tag => match DigestSpec.firstData p.md.signature.entries tag with
-          | some (.bin s) => some s | _ => none
-        let openpgpReadable := match DigestSpec.firstData p.md.signature.entries SigTag.RPMSIGTAG_OPENPGP with
-          | some (.strArray _) => true | some (.i18n _) => true | _ => false
-        let excl := !openpgpReadable && pgpSig != binOf SigTag.RPMSIGTAG_RSA && pgpSig != binOf SigTag.RPMSIGTAG_DSA
-        let digestsMatch := DigestSpec.judgeWith (DigestSpec.recomputeRaw realH bs) (DigestSpec.Recorded p) .ok
-        if VerifySpec.successAllowed ident hdr content pgpSig excl digestsMatch log then answer m "holds" branch
-        else answer m ("fails:" ++ VerifySpec.whyNot ident hdr content pgpSig excl digestsMatch log) branch
-  | _, _ => badReq "args"
 
 def flipBit (bs : Bytes) (bit : Nat) : Bytes :=
   let i := bit / 8
@@ -189,6 +167,8 @@ structure PktInfo where
   alg : Nat
   /-- one bit per key of the verifier's certificate (primary, subkeys…): `signature.verify(key, header bytes).is_ok()` -/
   bits : List Bool
+  /-- the same over header ++ payload (what a signature under RPMSIGTAG_PGP is checked against) -/
+  bitsAll : List Bool := []
 
 /-- `packet=N` / `packet=S/<id+id|->/<alg>/<bits>`, comma separated (`-` = no packets) -/
 def parsePktTable (s : String) : Option (List (Bytes × Option PktInfo)) :=
@@ -202,7 +182,11 @@ def parsePktTable (s : String) : Option (List (Bytes × Option PktInfo)) :=
       | ["S", iss, alg, bits] => do
         let ids ← if iss == "-" then some [] else (iss.splitOn "+").mapM fun h => bytesOfHexAux h.toList []
         let a ← alg.toNat?
-        pure (t, some ⟨ids, a, bits.toList.map (· == '1')⟩)
+        pure (t, some ⟨ids, a, bits.toList.map (· == '1'), []⟩)
+      | ["S", iss, alg, bits, bitsAll] => do
+        let ids ← if iss == "-" then some [] else (iss.splitOn "+").mapM fun h => bytesOfHexAux h.toList []
+        let a ← alg.toNat?
+        pure (t, some ⟨ids, a, bits.toList.map (· == '1'), bitsAll.toList.map (· == '1')⟩)
       | _ => none
     | _ => none
 
@@ -216,7 +200,8 @@ def textOf (bs : Bytes) : String := (String.fromUTF8? (ByteArray.mk bs.toArray))
 def idsStr : Out (List Bytes) → String
   | .ok [] => "none"
   | .ok l => "+".intercalate (l.map textOf)
-  | _ => "err"
+  | .err c => "err:" ++ c
+  | .panic _ => "panic"
 
 def handleSigpkts (label kidsS pktS b64S blobS hb impl : String) : String :=
   match parsePktTable pktS, parseTable b64S, bytesOfHex blobS, bytesOfHex hb with
@@ -241,7 +226,8 @@ def handleSigpkts (label kidsS pktS b64S blobS hb impl : String) : String :=
       let hdr := writeHeader p.md.header
       let E : PgpPkt Nat PktInfo :=
         { kid := fun i => natOfBytes (kids.getD i []), parsePkt := parsePkt, issuers := fun s => s.issuers.map natOfBytes,
-          early := fun _ _ => false, check := fun k d s => d == hdr && s.bits.getD k false }
+          early := fun _ _ => false,
+          check := fun k d s => (d == hdr && s.bits.getD k false) || (d == hdr ++ p.content && s.bitsAll.getD k false) }
       let ring : KeyRing Nat := ⟨0, (List.range kids.length).drop 1⟩
       let v : Verifier := fun _ d sig => (pgpVerifierVerifyP E ring d sig).1.isOk
       let r := verifySignatureS realH.md5 realH.sha1 realH.sha256 b64 v p
@@ -263,16 +249,159 @@ def handleSigpkts (label kidsS pktS b64S blobS hb impl : String) : String :=
           | none => s!"no-sig-in-{ps.length}"
       let branch := s!"sigpkts-{label}:{pcls}:{cls}"
       -- spec: success needs a signature packet (as framed from the request) that some key of the certificate accepts
-      let someAccepted := ptbl.any fun e => match e.2 with | some i => i.bits.any id | none => false
+      let someAccepted := ptbl.any fun e => match e.2 with | some i => i.bits.any id || i.bitsAll.any id | none => false
       let implOk := (impl.splitOn " ").contains "verify=ok"
       if impl == "parse-err" || impl == "panic" then answer m "dontcare" branch
       else if implOk && !someAccepted then answer m "fails:unsigned-header-accepted" branch
       else answer m "holds" branch
   | _, _, _, _ => badReq "args"
 
+/-- the echo column: scope, `signature.len()`, the printed slice -/
+def echoStr (log : List Consult) (ech : List (Nat × Bytes)) : String :=
+  if ech.isEmpty then "-" else
+  ";".intercalate ((log.zip ech).map fun (c, n, pre) =>
+    s!"{if c.fromPgpTag then "c" else "h"}{n}:{if pre.isEmpty then "." else hexOfBytes pre}")
+
+def handleVsig (pat table hb pktS impl : String) : String :=
+  match parseTable table, bytesOfHex hb, parsePktTable pktS with
+  | some tbl, some bs, some ptbl =>
+    match parsePackage bs with
+    | .err c => answer "parse-err" "dontcare" ("parse-err-" ++ c)
+    | .panic s => answer "panic" "dontcare" ("parse-panic-" ++ s)
+    | .ok p =>
+      -- every OPENPGP text the model will decode must be in the table
+      let texts := match getStringArray p.md.signature SigTag.RPMSIGTAG_OPENPGP with | .ok l => l | _ => []
+      if texts.any (fun t => (tbl.lookup t).isNone) then badReq "b64-table" else
+      let b64 : Bytes → Option Bytes := fun t => (tbl.lookup t).getD none
+      let r3 := verifySignatureSE realH.md5 realH.sha1 realH.sha256 b64 (scripted (patternOf pat)) p
+      let r : Out Unit × List Consult := (r3.1, r3.2.1)
+      -- `signature_key_ids`: the same table is the base64 decoder of its inline loop; a packet that is not in PKTTABLE is no signature
+      let PP : Sign.PktParser := ⟨PktInfo, fun q => (ptbl.lookup q).getD none, fun s => s.issuers.map hexText, fun s => s.alg⟩
+      let S : Sign.SigScheme :=
+        Sign.SigScheme.withParser
+          { Key := Unit, decEq := inferInstance, sign := fun _ _ _ => [], verify := fun _ _ _ => false, issuer := fun _ => none,
+            keyId := fun _ => [], legacyTag := fun _ => 0, b64enc := id, b64dec := b64 } PP
+      let m := obsStr r ++ " keyids=" ++ idsStr (Sign.keyIds S p) ++ " echo=" ++ echoStr r3.2.1 r3.2.2
+      let cls := match r.1 with | .ok _ => "ok" | .err c => c | .panic _ => "panic"
+      let branch := s!"vsig[{shapeLabel p}]{cls}/{r.2.length}"
+      match parseImpl impl with
+      | none => answer m "dontcare" branch           -- parse-err / panic on the implementation's side: a broken tie, no verdict
+      | some (false, _) => answer m "holds" branch   -- the text restricts success only
+      | some (true, log) =>
+        let hdr := DigestSpec.rawHeader bs
+        let content := DigestSpec.rawContent bs
+        let pgpSig := match DigestSpec.firstData p.md.signature.entries SigTag.RPMSIGTAG_PGP with
+          | some (.bin s) => some s | _ => none
+        let binOf : Nat → Option Bytes := fun tag => match DigestSpec.firstData p.md.signature.entries tag with
+          | some (.bin s) => some s | _ => none
+        let openpgpReadable := match DigestSpec.firstData p.md.signature.entries SigTag.RPMSIGTAG_OPENPGP with
+          | some (.strArray _) => true | some (.i18n _) => true | _ => false
+        let excl := !openpgpReadable && pgpSig != binOf SigTag.RPMSIGTAG_RSA && pgpSig != binOf SigTag.RPMSIGTAG_DSA
+        let digestsMatch := DigestSpec.judgeWith (DigestSpec.recomputeRaw realH bs) (DigestSpec.Recorded p) .ok
+        if VerifySpec.successAllowed ident hdr content pgpSig excl digestsMatch log then answer m "holds" branch
+        else answer m ("fails:" ++ VerifySpec.whyNot ident hdr content pgpSig excl digestsMatch log) branch
+  | _, _, _ => badReq "args"
+
+/-! ### `forge02`: edit, recompute every recorded digest, keep the signatures -/
+
+def be32At (bs : Bytes) (i : Nat) : Option Nat :=
+  match (bs.drop i).take 4 with
+  | [a, b, c, d] => some (((a.toNat * 256 + b.toNat) * 256 + c.toNat) * 256 + d.toNat)
+  | _ => none
+
+/-- position (in the file) of the data of the FIRST index entry with tag `tag` of the header whose intro starts at `h0`, provided
+its type code is `ty`; and the end of that header's store -/
+def entryPos (bs : Bytes) (h0 tag ty : Nat) : Option (Nat × Nat) := do
+  let n ← be32At bs (h0 + 8)
+  let dl ← be32At bs (h0 + 12)
+  let store := h0 + 16 + 16 * n
+  let stop := store + dl
+  if stop > bs.length then none else
+  let rec go (i : Nat) (fuel : Nat) : Option (Nat × Nat) :=
+    match fuel with
+    | 0 => none
+    | fuel + 1 =>
+      if i ≥ n then none else
+      match be32At bs (h0 + 16 + 16 * i) with
+      | none => none
+      | some t =>
+        if t == tag then
+          match be32At bs (h0 + 16 + 16 * i + 4), be32At bs (h0 + 16 + 16 * i + 8) with
+          | some ty', some off => if ty' == ty then some (store + off, stop) else none
+          | _, _ => none
+        else go (i + 1) fuel
+  go 0 (n + 1)
+
+/-- overwrite `new.length` bytes at `pos` if they lie inside the store and (for text) a NUL follows them there -/
+def patch (bs : Bytes) (pe : Option (Nat × Nat)) (new : Bytes) (text : Bool) : Bytes :=
+  match pe with
+  | none => bs
+  | some (pos, stop) =>
+    let fin := pos + new.length
+    if fin + (if text then 1 else 0) ≤ stop && (!text || bs[fin]? == some 0) then bs.take pos ++ new ++ bs.drop fin else bs
+
+def hexText' (bs : Bytes) : Bytes := (hexOfBytes bs).toUTF8.toList
+
+/-- the forger (same steps as `forge` in harness/src/c02.rs, written independently over the model's parser and the driver's
+own hash functions) -/
+def forge (orig : Bytes) (off del : Nat) (ins : Bytes) : Bytes :=
+  let e := splice orig off del ins
+  match parsePackage e with
+  | .ok p1 =>
+    let h0 := (offsets p1.md).hdr
+    let p0 := (offsets p1.md).payload
+    let e := patch e (entryPos e h0 IndexTag.RPMTAG_PAYLOADDIGEST 8) (hexText' (realH.sha256 (e.drop p0))) true
+    match parsePackage e with
+    | .ok p2 =>
+      let hb := writeHeader p2.md.header
+      let s0 := (offsets p1.md).sig
+      let e := patch e (entryPos e s0 SigTag.RPMSIGTAG_SHA256 6) (hexText' (realH.sha256 hb)) true
+      let e := patch e (entryPos e s0 SigTag.RPMSIGTAG_SHA1 6) (hexText' (realH.sha1 hb)) true
+      patch e (entryPos e s0 SigTag.RPMSIGTAG_MD5 7) (realH.md5 (hb ++ e.drop p0)) false
+    | _ => e
+  | _ => e
+
+def handleForge (offS delS insS table hb impl : String) : String :=
+  match parseTable table, bytesOfHex hb, offS.toNat?, delS.toNat?, bytesOfHex insS with
+  | some tbl, some bs, some off, some del, some ins =>
+    match parsePackage bs with
+    | .ok p =>
+      let e := forge bs off del ins
+      let tail := " forged=" ++ hex16 (fnv e)
+      let region := if off < 96 then "lead" else if off < (offsets p.md).hdr then "sig" else if off < (offsets p.md).payload then "hdr" else "payload"
+      match parsePackage e with
+      | .err c => answer ("verify=parse-err" ++ tail) "dontcare" s!"forge-{region}:parse-err-{c}"
+      | .panic s => answer "panic" "dontcare" s!"forge-{region}:parse-panic-{s}"
+      | .ok p' =>
+        let texts := match getStringArray p'.md.signature SigTag.RPMSIGTAG_OPENPGP with | .ok l => l | _ => []
+        if texts.any (fun t => (tbl.lookup t).isNone) then badReq "b64-table" else
+        let b64 : Bytes → Option Bytes := fun t => (tbl.lookup t).getD none
+        -- the signer's own key, as the SigScheme hypotheses describe its verifier: the ORIGINAL's signatures, each accepted for
+        -- exactly the data it was made for (`Correct` and `Binds`)
+        let hb0 := writeHeader p.md.header
+        let otexts := match getStringArray p.md.signature SigTag.RPMSIGTAG_OPENPGP with | .ok l => l | _ => []
+        let sigsHdr := otexts.filterMap b64 ++ [SigTag.RPMSIGTAG_RSA, SigTag.RPMSIGTAG_DSA].filterMap fun t => (getBinary p.md.signature t).toOption
+        let sigsAll := [SigTag.RPMSIGTAG_PGP].filterMap fun t => (getBinary p.md.signature t).toOption
+        let v : Verifier := fun _ d s => (sigsHdr.contains s && d == hb0) || (sigsAll.contains s && d == hb0 ++ p.content)
+        let r := verifySignatureS realH.md5 realH.sha1 realH.sha256 b64 v p'
+        let changed := writeHeader p'.md.header ≠ hb0 ∨ p'.content ≠ p.content
+        let m := (if r.1.isOk then "verify=ok" else "verify=err") ++ tail
+        let cls := match r.1 with | .ok _ => "ok" | .err c => c | .panic _ => "panic"
+        let branch := s!"forge-{region}:{if changed then "changed" else "same"}:{cls}"
+        let implV := (impl.splitOn " ").headD ""
+        if off ≥ (offsets p.md).hdr && changed then
+          if implV == "verify=ok" then answer m "fails:tamper-accepted" branch
+          else if implV == "verify=err" || implV == "verify=parse-err" then answer m "holds" branch
+          else answer m "dontcare" branch
+        else answer m "dontcare" branch
+    | _ => badReq "orig-does-not-parse"
+  | _, _, _, _, _ => badReq "args"
+
 def handle (op : String) (args : List String) (impl : String) : String :=
   match op, args with
-  | "vsig", [pat, table, hb] => handleVsig pat table hb impl
+  | "vsig", [pat, table, hb] => handleVsig pat table hb "-" impl
+  | "vsig", [pat, table, hb, pkt] => handleVsig pat table hb pkt impl
+  | "forge02", [_, off, del, ins, table, hb] => handleForge off del ins table hb impl
   | "sigpkts", [_, label, kids, ptbl, btbl, blob, hb] => handleSigpkts label kids ptbl btbl blob hb impl
   | "vorig", [_, hb] =>
     -- hypothesis of the model (SigScheme: a signature verifies over the message it was made for); no verdict
